@@ -25,8 +25,9 @@ import (
 
 // ---------------------------------------------------------------- minimal RESP client
 type rconn struct {
-	c net.Conn
-	r *bufio.Reader
+	c   net.Conn
+	r   *bufio.Reader
+	rto time.Duration // read time-out of the next read (5 s when zero)
 }
 
 func dial(addr string) (*rconn, error) {
@@ -50,7 +51,11 @@ func (r *rconn) send(args ...string) error {
 
 // read returns one reply: string (simple/bulk), int, error (as error value in the slot), []any, nil.
 func (r *rconn) read() (any, error) {
-	r.c.SetReadDeadline(time.Now().Add(5 * time.Second))
+	rto := r.rto
+	if rto == 0 {
+		rto = 5 * time.Second
+	}
+	r.c.SetReadDeadline(time.Now().Add(rto))
 	line, err := r.r.ReadString('\n')
 	if err != nil {
 		return nil, err
@@ -631,10 +636,133 @@ func TestPubSub(t *testing.T) {
 		w.closeAll()
 		time.Sleep(20 * time.Millisecond)
 	}
+	// ---- an UNSUBSCRIBE while a publication is under way ("after UNSUBSCRIBE no further message reaches that subscription"):
+	// s1 and s2 hold the channel on one member, s1 stops reading; a publisher sends large messages until one PUBLISH does not
+	// return (the member is writing to s1, whose socket is full); s2 unsubscribes; s1 reads again.  Whatever the member does
+	// with the two requests, s2 gets no message after the acknowledgement of its UNSUBSCRIBE and PUBLISH counts its deliveries.
+	stall := envInt("VERIF_PS_STALL", 0)
+	for r := 0; r < stall; r++ {
+		addr := c.Members[r%2].Name
+		ch := fmt.Sprintf("stall%d", r)
+		s1, err := dial(addr)
+		if err != nil {
+			t.Fatal(err)
+		}
+		s2, err := dial(addr)
+		if err != nil {
+			t.Fatal(err)
+		}
+		pb, err := dial(addr)
+		if err != nil {
+			t.Fatal(err)
+		}
+		ww := &world{c: c, w: tw}
+		sub1, sub2 := &sub{name: "s1", conn: s1, alive: true}, &sub{name: "s2", conn: s2, alive: true}
+		for _, x := range []*sub{sub1, sub2} {
+			if err := ww.subscribeAck(x, "subscribe", barrier); err != nil {
+				t.Fatal(err)
+			}
+			if err := ww.subscribeAck(x, "subscribe", ch); err != nil {
+				t.Fatal(err)
+			}
+		}
+		pad := strings.Repeat("x", 1<<20)
+		stuck := 0
+		pb.rto = 700 * time.Millisecond
+		for j := 1; j <= 64 && stuck == 0; j++ {
+			if err := pb.send("publish", ch, fmt.Sprintf("M%d|", j)+pad); err != nil {
+				t.Fatal(err)
+			}
+			if _, err := pb.read(); err != nil {
+				stuck = j // no reply: the publication is under way
+				break
+			}
+			s2.rto = 20 * time.Second
+			if _, err := s2.read(); err != nil { // s2 keeps reading
+				t.Fatalf("stall round: s2 did not get message %d: %v", j, err)
+			}
+		}
+		if stuck == 0 {
+			t.Logf("stall round %d: no PUBLISH got stuck behind the silent subscriber; nothing to judge", r)
+			s1.c.Close()
+			s2.c.Close()
+			pb.c.Close()
+			continue
+		}
+		if err := s2.send("unsubscribe", ch); err != nil {
+			t.Fatal(err)
+		}
+		time.Sleep(300 * time.Millisecond)
+		// s1 reads again: everything up to the stuck message
+		s1got := make(chan bool, 1)
+		go func() {
+			s1.rto = 30 * time.Second
+			for {
+				x, err := s1.read()
+				if err != nil {
+					s1got <- false
+					return
+				}
+				if arr, ok := x.([]any); ok && len(arr) == 3 {
+					if m, _ := arr[2].(string); strings.HasPrefix(m, fmt.Sprintf("M%d|", stuck)) {
+						s1got <- true
+						return
+					}
+				}
+			}
+		}()
+		pb.rto = 60 * time.Second
+		x, err := pb.read()
+		if err != nil {
+			t.Fatalf("stall round: the stuck PUBLISH never returned: %v", err)
+		}
+		count, _ := x.(int)
+		deliveries := 0
+		if <-s1got {
+			deliveries++
+		}
+		// everything s2 was sent since its UNSUBSCRIBE, up to the pong of a PING sent after PUBLISH has returned
+		if err := s2.send("ping", "stall-end"); err != nil {
+			t.Fatal(err)
+		}
+		frames := []trace.Ev{}
+		s2.rto = 20 * time.Second
+		for {
+			x, err := s2.read()
+			if err != nil {
+				t.Fatalf("stall round: waiting for the pong on s2: %v", err)
+			}
+			arr, _ := x.([]any)
+			if len(arr) < 2 {
+				frames = append(frames, trace.Ev{"k": "other"})
+				continue
+			}
+			kind, _ := arr[0].(string)
+			if kind == "pong" {
+				break
+			}
+			if kind == "message" {
+				m, _ := arr[2].(string)
+				if strings.HasPrefix(m, fmt.Sprintf("M%d|", stuck)) {
+					deliveries++
+				}
+				frames = append(frames, trace.Ev{"k": "message"})
+			} else {
+				frames = append(frames, trace.Ev{"k": kind})
+			}
+		}
+		w.evals += stuck + 1
+		tw.Emit(trace.Ev{"t": "reset", "seq": len(programs) + conc + r + 1, "conns": []trace.Ev{{"c": "s1", "m": r%2 + 1}, {"c": "s2", "m": r%2 + 1}}})
+		tw.Emit(trace.Ev{"t": "stall", "ch": ch, "stuck": stuck, "count": count, "deliveries": deliveries, "frames": frames})
+		s1.c.Close()
+		s2.c.Close()
+		pb.c.Close()
+		time.Sleep(50 * time.Millisecond)
+	}
 	if err := tw.Close(); err != nil {
 		t.Fatal(err)
 	}
-	sum := map[string]any{"evaluations": w.evals, "programs": len(programs), "from_tlc": fromTLC, "concurrent_rounds": conc,
+	sum := map[string]any{"evaluations": w.evals, "programs": len(programs), "from_tlc": fromTLC, "concurrent_rounds": conc, "stall_rounds": stall,
 		"distinct_nontrivial": len(nontriv), "samples": samples}
 	b, _ := json.MarshalIndent(sum, "", " ")
 	os.WriteFile(filepath.Join(out, "ps.summary.json"), b, 0o644)
